@@ -209,3 +209,58 @@ package kvql
 //@   ensures[C15] fail: err != nil ==> ret == nil
 //@   ensures[C15] wf: wfParser(p) && p.pos >= old(p.pos)
 //@   atreturn set lvl(ret) := ite(err == nil, 6, lvl(ret))
+//
+// ---------------------------------------------------------------------------------------------
+// Lexer (property C16): every token carries the offset at which its text begins and exactly that
+// text (case-folded for words), quoted literals are the bytes between their two quote characters.
+//
+// Classification of a (lower-cased, trimmed) word: the documented keyword table, then integers,
+// then floats, then names.
+//@ define kindOf(w B) Int = ite(w == "select", SELECT, ite(w == "where", WHERE, ite(w == "key", KEY, ite(w == "value", VALUE, ite(w == "limit", LIMIT, ite(w == "order", ORDER, ite(w == "by", BY, ite(w == "asc", ASC, ite(w == "desc", DESC, ite(w == "true", TRUE, ite(w == "false", FALSE, ite(w == "as", AS, ite(w == "group", GROUP, ite(w == "in" || w == "between" || w == "and" || w == "or", OPERATOR, ite(w == "put", PUT, ite(w == "remove", REMOVE, ite(w == "delete", DELETE, ite(parseIntOk(w), NUMBER, ite(parseFloatOk(w), FLOAT, NAME)))))))))))))))))))
+//
+//@ func isNumber(val string) (ok bool)
+//@   props C16
+//@   assigns nothing
+//@   ensures ok == parseIntOk(val(val))
+//@ func isFloat(val string) (ok bool)
+//@   props C16
+//@   assigns nothing
+//@   ensures ok == parseFloatOk(val(val))
+//
+//@ func buildToken(curr string, pos int) (tok *Token)
+//@   props C16
+//@   assigns nothing
+//@   ensures[C16] empty: (tok == nil) == (blen(trim(val(curr))) == 0)
+//@   ensures[C16] text: tok != nil ==> fresh(tok) && val(tok.Data) == lower(trim(val(curr))) && tok.Pos == pos + lead(val(curr))
+//@   ensures[C16] kind: tok != nil ==> tok.Tp == kindOf(lower(trim(val(curr))))
+//
+// tokP(q, kind, text, pos): a token of that kind, text and offset is a faithful token of q. The
+// predicate is opaque in the loop's bookkeeping obligations and unfolded (tokP_def) exactly where a
+// token is appended.
+//@ specfun tokP(B, Int, B, Int) Bool
+//@ define exactAt(q B, d B, p Int) Bool = 0 <= p && p + blen(d) <= blen(q) && blen(d) >= 1 && d == sub(q, p, p + blen(d))
+//@ define wordAt(q B, d B, p Int) Bool = 0 <= p && p + blen(d) <= blen(q) && blen(d) >= 1 && d == lower(sub(q, p, p + blen(d)))
+//@ define quotedAt(q B, d B, p Int, c Int) Bool = 0 <= p && p + blen(d) + 2 <= blen(q) && at(q, p) == c && at(q, p + 1 + blen(d)) == c && d == sub(q, p + 1, p + 1 + blen(d))
+//@ axiom tokP_def(q B, tp Int, d B, p Int): tokP(q, tp, d, p) == ite(tp == STRING, quotedAt(q, d, p, 39) || quotedAt(q, d, p, 34), ite(tp == NAME, wordAt(q, d, p) || quotedAt(q, d, p, 96), exactAt(q, d, p) || wordAt(q, d, p)))
+//@ define tokOK(q B, t *Token) Bool = t != nil && tokP(q, t.Tp, val(t.Data), t.Pos)
+//
+//@ func NewLexer(query string) (l *Lexer)
+//@   props C16
+//@   assigns nothing
+//@   ensures[C16] whole: l != nil && fresh(l) && l.Query == query && l.Length == len(query)
+//
+//@ func (l *Lexer) Split() (ret []*Token)
+//@   props C16
+//@   splitlatch
+//@   requires l != nil && l.Length == len(l.Query)
+//@   assigns nothing
+//@   ensures[C16] tokens: forall j Int :: 0 <= j && j < len(ret) ==> tokOK(val(l.Query), ret[j])
+//@   onappend *Token use tokP_def(val(l.Query), elem.Tp, val(elem.Data), elem.Pos)
+//@   onappend *Token assert[C16] tok: tokOK(val(l.Query), elem)
+//@   loop 0
+//@     invariant 0 <= i && i <= l.Length
+//@     invariant 0 <= tokStart && tokLen >= 0 && tokStart + tokLen == i
+//@     invariant strStart ==> tokStart >= 1 && tokStartPos == tokStart - 1 && at(val(l.Query), tokStartPos) == strStartChar && (strStartChar == 39 || strStartChar == 34 || strStartChar == 96)
+//@     invariant !strStart ==> tokStartPos == tokStart
+//@     invariant (i > 0 ==> prev == at(val(l.Query), i - 1)) && (i == 0 ==> prev == 0)
+//@     invariant tokens: forall j Int :: 0 <= j && j < len(ret) ==> tokOK(val(l.Query), ret[j])
